@@ -359,6 +359,90 @@ Definition gmrf_cert (order : nat) (b : bc_t) (twod : bool) (n : nat) (loc x dd 
   | None => false
   end.
 
+(* standardised evaluation points of Normal.cdf over Q: z_i = (x_i - mean_i) / std_i with numpy broadcasting *)
+Definition normal_zq (mean std x : list Q) : list Q :=
+  let n := length x in
+  map (fun p => Qred ((snd p - fst (fst p)) / snd (fst p))) (combine (combine (qbc n mean) (qbc n std)) x).
+
+(* ---------- characteristic polynomial (Faddeev-LeVerrier) and pseudo-determinants ---------- *)
+Local Open Scope Q_scope.
+Definition qmadd (A B : list (list Q)) : list (list Q) :=
+  map (fun p => map (fun q => Qred (fst q + snd q)) (combine (fst p) (snd p))) (combine A B).
+Definition qtrace (A : list (list Q)) : Q :=
+  fold_right Qplus 0 (map (fun i => nth i (nth i A []) 0) (seq 0 (length A))).
+Definition qzero (n : nat) : list (list Q) := map (fun _ => repeat 0 n) (seq 0 n).
+(* coefficients c_(n-1), ..., c_0 of det(lambda I - A) = lambda^n + c_(n-1) lambda^(n-1) + ... + c_0 *)
+Fixpoint fl_loop (fuel k n : nat) (A Mprev : list (list Q)) (cprev : Q) : list Q :=
+  match fuel with
+  | O => []
+  | S f => let Mk := qmadd (qmm n A Mprev) (qscale cprev (qident n)) in
+           let ck := Qred (- qtrace (qmm n A Mk) / inject_Z (Z.of_nat k)) in
+           ck :: fl_loop f (S k) n A Mk ck
+  end.
+Definition charpoly (A : list (list Q)) : list Q := let n := length A in fl_loop n 1 n A (qzero n) 1.
+(* product of the non-zero eigenvalues of a symmetric PSD matrix with a k-dimensional null space: (-1)^(n-k) c_k *)
+Definition qpdet (k : nat) (A : list (list Q)) : Q :=
+  let n := length A in
+  let c := nth (n - 1 - k) (charpoly A) 0 in
+  if Nat.even (n - k) then c else - c.
+
+(* GMRF after fixes/C20_gmrf_rank_rule.diff: rank = dim - nullity, logdet = ln of the pseudo-determinant *)
+Definition gmrf_nullity (order : nat) (b : bc_t) (twod : bool) : nat :=
+  match b, order with
+  | BZero, _ => 0
+  | _, O => 0
+  | BNeumann, S (S O) => if twod then 4 else 2
+  | _, _ => 1
+  end%nat.
+Definition gmrf_rank_v (fixed : bool) (order : nat) (b : bc_t) (twod : bool) (dim : nat) : nat :=
+  if fixed then (dim - gmrf_nullity order b twod)%nat else gmrf_rank_code b dim.
+Definition gmrf_detarg_v (fixed : bool) (order : nat) (b : bc_t) (twod : bool) (P : list (list Q)) : option Q :=
+  if fixed then match b with BZero => Some (qdet P) | _ => Some (qpdet (gmrf_nullity order b twod) P) end
+  else gmrf_detarg order b P.
+Definition gmrf_cert_v (fixed : bool) (order : nat) (b : bc_t) (twod : bool) (n : nat) (loc x dd : list Q)
+                       (rank_obs : nat) (detarg : Q) : bool :=
+  let dim := length x in
+  mrf_cert order b twod n loc x dd && Nat.eqb (gmrf_rank_v fixed order b twod dim) rank_obs &&
+  match diff_op order b twod n with
+  | Some D => match gmrf_detarg_v fixed order b twod (prec_of dim D) with Some v => Qeq_bool v detarg | None => false end
+  | None => false
+  end.
+
+(* ---------- Gaussian.compute_cov: the covariance matrix of the distribution the logpdf denotes ---------- *)
+(* S is (certified to be) that covariance: cov = M;  prec = M: M S = I;  sqrtcov = M: S = M M^T (the code's reading);
+   sqrtprec = M: (M^T M) S = I  (the precision of the quadratic form |M d|^2) *)
+Definition gauss_cov_cert (f : gform) (n : nat) (M S : list (list Q)) : bool :=
+  match f with
+  | FCov => qll_eqb S M
+  | FPrec => qll_eqb (qmm n M S) (qident n)
+  | FSqrtcov => qll_eqb S (qmm n M (qtr n M))
+  | FSqrtprec => qll_eqb (qmm n (qmm n (qtr n M) M) S) (qident n)
+  end.
+Definition qmax (a b : Q) : Q := if Qle_bool a b then b else a.
+Definition qmaxabs (A : list (list Q)) : Q := fold_right (fun r acc => fold_right (fun v a => qmax (Qabs v) a) acc r) 0 A.
+(* entrywise |a - b| <= tol * max|B| *)
+Definition qmat_close (tol : Q) (A B : list (list Q)) : bool :=
+  let s := qmaxabs B in list_eqb (list_eqb (fun a b => Qle_bool (Qabs (a - b)) (tol * s))) A B.
+
+(* ---------- symmetric positive SEMI-definite input on the sparse side of the switch (eigh branch): Sg = B B^T with B n x r
+   of full column rank (certificate), G = (B^T B)^-1 (certificate): rank r, pseudo-determinant det(B^T B),
+   pseudo-inverse B G G B^T, so d^T Sg^+ d = |G B^T d|^2 ---------- *)
+Definition gauss_psd_cert (n r : nat) (Sg B G : list (list Q)) (d : list Q) (pdet quad : Q) (rank_obs : nat) : bool :=
+  let Bt := qtr r B in
+  let BtB := qmm r Bt B in
+  Nat.eqb rank_obs r && qll_eqb (qmm n B Bt) Sg && qll_eqb (qmm r BtB G) (qident r) &&
+  Qeq_bool (qdet BtB) pdet && Qlt_bool 0 pdet &&
+  Qeq_bool (let z := qmv G (qmv Bt d) in qdotq z z) quad.
+(* what a SINGULAR (rank-deficient) full matrix meets: on the sparse side of the switch the eigenvalue route gives the degenerate
+   Gaussian (value); on the dense side inv / cholesky refuse it, except sqrtprec, whose logdet = -ln det(M M^T) = +inf *)
+Definition gauss_singular_outcome (sparse_side : bool) (f : gform) : gout :=
+  if sparse_side then OutValue else match f with FSqrtprec => OutValue | _ => OutRefusedInit end.
+(* improper "precision" P = B B^T (prec / sqrtprec forms): quadratic form d^T P d = |B^T d|^2 *)
+Definition gauss_psd_prec_cert (n r : nat) (P B : list (list Q)) (d : list Q) (pdet quad : Q) (rank_obs : nat) : bool :=
+  let Bt := qtr r B in
+  Nat.eqb rank_obs r && qll_eqb (qmm n B Bt) P && Qeq_bool (qdet (qmm r Bt B)) pdet && Qlt_bool 0 pdet &&
+  Qeq_bool (let z := qmv Bt d in qdotq z z) quad.
+
 Local Open Scope R_scope.
 (* values, given the differences dd = D (x - location) *)
 Definition gmrf_logpdf (rank : nat) (prec detarg : R) (dd : list R) : R :=
